@@ -93,7 +93,7 @@ Lemma qf_ts_kname off c e k : in_years e (fst k) ->
   qf off (fsfx (c_spec c)) (fixed0 c) (IFTs std_fmt) (fsfx (c_spec c)) (kname c e k) = true.
 Proof.
   intros Y. unfold qf. rewrite (family_is_candidate (c_spec c) (fixed0 c) (kname c e k) (tsx e (fst k))).
-  - cbn [filter_infix]. rewrite (parse_tsx e _ Y). reflexivity.
+  - cbn [filter_infix]. rewrite (canonical_tsx e _ Y). reflexivity.
   - apply family_plain_alt. exists (ktail (snd k)). split; [apply ktail_restart_part|].
     split; [apply tsx_nonempty; exact Y|]. split; [exact (tsx_no_dot e _ Y)|].
     rewrite kname_shape by exact Y. fold (sfxs (c_spec c)). rewrite <- !app_assoc. reflexivity.
